@@ -300,16 +300,23 @@ def run(ctx: Ctx):
         forms = [r for r in walk_no_nested(g.node) if isinstance(r, ast.Return) and isinstance(r.value, ast.BinOp)]
         okf = False
         if len(forms) == 1:
-            try:
-                ex = Extractor({"observed_disorder": Rat.var("obs"), "expected_disorder": Rat.var("exp")})
-                okf = ex.ev(forms[0].value) == Rat.const(1) - Rat.var("obs") / Rat.var("exp")
-            except Unsupported:
-                okf = False
-            od = assigned_value(g.node, "observed_disorder")
-            ed = assigned_value(g.node, "expected_disorder")
-            okf = okf and len(od) == 1 and norm(od[0]).endswith(".result()") and len(ed) == 1 and "np.mean" in norm(ed[0]) and ".result()" in norm(ed[0])
+            # roles: the local bound to <observed job>.result() and the one bound to the mean over the chance jobs' results
+            obs_n = [norm(s_.targets[0]) for s_ in walk_no_nested(g.node) if isinstance(s_, ast.Assign) and isinstance(s_.targets[0], ast.Name)
+                     and isinstance(s_.value, ast.Call) and isinstance(s_.value.func, ast.Attribute) and s_.value.func.attr == "result" and not s_.value.args]
+            exp_n = [norm(s_.targets[0]) for s_ in walk_no_nested(g.node) if isinstance(s_, ast.Assign) and isinstance(s_.targets[0], ast.Name)
+                     and "np.mean" in norm(s_.value) and ".result()" in norm(s_.value)]
+            okf = False
+            if len(obs_n) == 1 and len(exp_n) == 1:
+                try:
+                    ex = Extractor({obs_n[0]: Rat.var("obs"), exp_n[0]: Rat.var("exp")})
+                    okf = ex.ev(forms[0].value) == Rat.const(1) - Rat.var("obs") / Rat.var("exp")
+                except Unsupported:
+                    okf = False
+                od = assigned_value(g.node, obs_n[0])
+                okf = okf and len(od) == 1 and obs and isinstance(od[0].func.value, ast.Name) and \
+                    any(v is obs[0] for v in assigned_value(g.node, od[0].func.value.id))
             gcfg = CFG(g.node)
-            gd = [i for i in walk_no_nested(g.node) if isinstance(i, ast.If) and norm(i.test) == "observed_disorder == 0" and
+            gd = [i for i in walk_no_nested(g.node) if isinstance(i, ast.If) and obs_n and norm(i.test) == f"{obs_n[0]} == 0" and
                   isinstance(i.body[0], ast.Return) and getattr(i.body[0].value, "value", None) in (1, 1.0)]
             okf = okf and len(gd) == 1 and gcfg.dominates(gcfg.node_of(gd[0]), gcfg.node_of(forms[0]))
         ctx.check(okf, "R-C12-3", g, forms[0] if forms else None, f"{qn} = 1 - observed / mean(chance), observed == 0 -> 1 first",
